@@ -129,27 +129,125 @@ Proof.
     intros [H1 H2]. apply andb_false_iff in E. destruct E as [E|E]; [apply Z.leb_gt in E | apply Z.ltb_ge in E]; lia.
 Qed.
 
-(* status OK of write_header means the filesize field is exact *)
-Theorem odc_ok_filesize : forall st e st' out rem,
-  odc_write_header st e = (st', ST_OK, out, rem) ->
+Lemma negb_eqb0c : forall r, negb (r =? 0)%Z = false -> r = 0%Z.
+Proof. intros r H. apply negb_false_iff in H. apply Z.eqb_eq. assumption. Qed.
+
+Lemma pick_warn_ok : forall c ret, pick c ST_WARN ret = ST_OK -> c = false /\ ret = ST_OK.
+Proof.
+  intros c ret H. unfold pick in H. destruct c; [|auto].
+  unfold ST_WARN, ST_OK, ARCHIVE_WARN, ARCHIVE_OK in H. lia.
+Qed.
+
+(* what a written odc header (status OK or WARN) looks like *)
+Lemma odc_written : forall st e st' ret out rem,
+  odc_write_header st e = (st', ret, out, rem) -> (ST_WARN <= ret)%Z ->
+  exists ino, out = odc_block ino e ++ ob (e_path e) ++ [0%Z] ++ sym_of e /\ ret = odc_warn e
+              /\ fst (odc_filesize e) = 0%Z /\ (lenZ (ob (e_path e)) + 1 <= 262143)%Z.
+Proof.
+  intros st e st' ret out rem H Hret. unfold odc_write_header in H.
+  destruct (262143 <? lenZ (ob (e_path e)) + 1)%Z eqn:El.
+  - apply tuple4_inv in H. destruct H as [_ [H2 _]]. subst ret. st_contra Hret.
+  - apply Z.ltb_ge in El.
+    destruct (synthesize_ino st e) as [st1 ino].
+    destruct (ino <? 0)%Z; [apply tuple4_inv in H; destruct H as [_ [H2 _]]; subst ret; st_contra Hret|].
+    destruct (262143 <? ino)%Z; [apply tuple4_inv in H; destruct H as [_ [H2 _]]; subst ret; st_contra Hret|].
+    destruct (negb (fst (odc_filesize e) =? 0)%Z) eqn:E; [apply tuple4_inv in H; destruct H as [_ [H2 _]]; subst ret; st_contra Hret|].
+    apply tuple4_inv in H. destruct H as [_ [H2 [H3 _]]].
+    exists ino. apply negb_false_iff in E. apply Z.eqb_eq in E. repeat split; auto.
+Qed.
+
+(* a written header has an exact file size field *)
+Theorem odc_ok_filesize : forall st e st' ret out rem,
+  odc_write_header st e = (st', ret, out, rem) -> (ST_WARN <= ret)%Z ->
   cpio_atol8 (slice ODC_c_filesize_offset ODC_c_filesize_size (firstn 76 out))
   = if (0 <? length (sym_of e)) then lenZ (sym_of e) else body_size e.
 Proof.
-  intros st e st' out rem H. unfold odc_write_header in H.
-  destruct (synthesize_ino st e) as [st1 ino].
-  destruct (ino <? 0)%Z; [bad4 H|].
-  destruct (262143 <? ino)%Z; [bad4 H|].
-  destruct (negb (fst (odc_filesize e) =? 0)%Z) eqn:E; [bad4 H|].
-  apply tuple4_inv in H. destruct H as [_ [_ [Hout _]]]. subst out.
+  intros st e st' ret out rem H Hret. destruct (odc_written _ _ _ _ _ _ H Hret) as [ino [Hout [_ [E _]]]]. subst out.
   rewrite firstn_app_exact by apply odc_block_length.
   rewrite odc_slice_filesize.
-  apply negb_false_iff in E. apply Z.eqb_eq in E.
   unfold odc_filesize in *. destruct (0 <? length (sym_of e)).
   - apply odc_format_octal_ok in E. destruct E as [Hv Hb]. rewrite Hb.
     apply octal_roundtrip_cpio; [assumption|]. change (zpow 8 ODC_c_filesize_size) with 8589934592%Z in Hv. unfold two63. lia.
   - apply odc_format_octal_ok in E. destruct E as [Hv Hb]. rewrite Hb.
     apply octal_roundtrip_cpio; [assumption|]. change (zpow 8 ODC_c_filesize_size) with 8589934592%Z in Hv. unfold two63. lia.
 Qed.
+
+Lemma odc_field_ok_decodes : forall v w, (0 < w <= 20)%nat -> fst (odc_format_octal v w) = 0%Z ->
+  cpio_atol8 (snd (odc_format_octal v w)) = v.
+Proof.
+  intros v w Hw H. apply odc_format_octal_ok in H. destruct H as [Hv Hb]. rewrite Hb.
+  assert (zpow 8 w <= zpow 8 20)%Z by (unfold zpow; apply Z.pow_le_mono_r; lia).
+  change (zpow 8 20) with 1152921504606846976%Z in H.
+  apply octal_roundtrip_cpio; unfold two63; lia.
+Qed.
+
+(* status OK: uid, gid, nlink, mtime, rdev (device nodes) and the name size are exact *)
+Section OdcOk.
+Variables (st st' : cpio_state) (e : entry) (out : list Z) (rem : Z).
+Hypothesis Hw : odc_write_header st e = (st', ST_OK, out, rem).
+
+Lemma odc_ok_parts : exists ino, firstn 76 out = odc_block ino e /\ odc_warn e = ST_OK /\ (lenZ (ob (e_path e)) + 1 <= 262143)%Z.
+Proof.
+  destruct (odc_written _ _ _ _ _ _ Hw ltac:(unfold ST_WARN, ST_OK, ARCHIVE_WARN, ARCHIVE_OK; lia)) as [ino [Hout [Hr [_ Hl]]]].
+  exists ino. subst out. rewrite firstn_app_exact by apply odc_block_length. auto.
+Qed.
+
+Lemma odc_warn_ok :
+  fst (odc_format_octal (e_uid e) ODC_c_uid_size) = 0%Z /\ fst (odc_format_octal (e_gid e) ODC_c_gid_size) = 0%Z
+  /\ fst (odc_format_octal (e_nlink e) ODC_c_nlink_size) = 0%Z
+  /\ (is_dev e = true -> fst (odc_format_octal (s64 (e_rdev e)) ODC_c_rdev_size) = 0%Z)
+  /\ fst (odc_format_octal (e_mtime e) ODC_c_mtime_size) = 0%Z.
+Proof.
+  destruct odc_ok_parts as [ino [_ [H _]]]. unfold odc_warn in H.
+  apply pick_warn_ok in H. destruct H as [C5 H]. apply pick_warn_ok in H. destruct H as [C4 H].
+  apply pick_warn_ok in H. destruct H as [C3 H]. apply pick_warn_ok in H. destruct H as [C2 H].
+  apply pick_warn_ok in H. destruct H as [C1 _].
+  repeat split.
+  - apply negb_eqb0c. assumption.
+  - apply negb_eqb0c. assumption.
+  - apply negb_eqb0c. assumption.
+  - intros Hd. rewrite Hd in C4. cbn [andb] in C4. apply negb_eqb0c. assumption.
+  - apply negb_eqb0c. assumption.
+Qed.
+
+Theorem odc_ok_uid : cpio_atol8 (slice ODC_c_uid_offset ODC_c_uid_size (firstn 76 out)) = e_uid e.
+Proof.
+  destruct odc_ok_parts as [ino [Hb _]]. rewrite Hb. rewrite odc_slice_uid.
+  apply odc_field_ok_decodes; [unfold ODC_c_uid_size; lia | apply odc_warn_ok].
+Qed.
+Theorem odc_ok_gid : cpio_atol8 (slice ODC_c_gid_offset ODC_c_gid_size (firstn 76 out)) = e_gid e.
+Proof.
+  destruct odc_ok_parts as [ino [Hb _]]. rewrite Hb. rewrite odc_slice_gid.
+  apply odc_field_ok_decodes; [unfold ODC_c_gid_size; lia | apply odc_warn_ok].
+Qed.
+Theorem odc_ok_nlink : cpio_atol8 (slice ODC_c_nlink_offset ODC_c_nlink_size (firstn 76 out)) = e_nlink e.
+Proof.
+  destruct odc_ok_parts as [ino [Hb _]]. rewrite Hb. rewrite odc_slice_nlink.
+  apply odc_field_ok_decodes; [unfold ODC_c_nlink_size; lia | apply odc_warn_ok].
+Qed.
+Theorem odc_ok_mtime : cpio_atol8 (slice ODC_c_mtime_offset ODC_c_mtime_size (firstn 76 out)) = e_mtime e.
+Proof.
+  destruct odc_ok_parts as [ino [Hb _]]. rewrite Hb. rewrite odc_slice_mtime.
+  apply odc_field_ok_decodes; [unfold ODC_c_mtime_size; lia | apply odc_warn_ok].
+Qed.
+Theorem odc_ok_rdev : is_dev e = true ->
+  cpio_atol8 (slice ODC_c_rdev_offset ODC_c_rdev_size (firstn 76 out)) = s64 (e_rdev e).
+Proof.
+  intros Hd. destruct odc_ok_parts as [ino [Hb _]]. rewrite Hb. rewrite odc_slice_rdev. rewrite Hd.
+  apply odc_field_ok_decodes; [unfold ODC_c_rdev_size; lia | apply odc_warn_ok; assumption].
+Qed.
+Theorem odc_ok_namesize :
+  cpio_atol8 (slice ODC_c_namesize_offset ODC_c_namesize_size (firstn 76 out)) = (lenZ (ob (e_path e)) + 1)%Z.
+Proof.
+  destruct odc_ok_parts as [ino [Hb [_ Hl]]]. rewrite Hb. rewrite odc_slice_namesize.
+  rewrite odc_field_decodes by (unfold ODC_c_namesize_size; lia).
+  unfold pathlength_of, s32. unfold lenZ in *.
+  rewrite Z.mod_small by lia.
+  change (zpow 8 ODC_c_namesize_size) with 262144%Z.
+  match goal with |- context [if ?c then _ else _] => replace c with true end; [lia|].
+  symmetry. apply andb_true_iff. split; [apply Z.leb_le | apply Z.ltb_lt]; lia.
+Qed.
+End OdcOk.
 
 (* ------------------------------------------------------------------ newc *)
 Ltac leafn :=
@@ -235,42 +333,88 @@ Proof.
     intros [H1 H2]. apply andb_false_iff in E. destruct E as [E|E]; [apply Z.leb_gt in E | apply Z.ltb_ge in E]; lia.
 Qed.
 
+Lemma newc_written : forall e ret out rem,
+  newc_write_header e = (ret, out, rem) -> (ST_WARN <= ret)%Z ->
+  firstn 110 out = newc_block e /\ ret = newc_warn e /\ fst (newc_filesize e) = 0%Z.
+Proof.
+  intros e ret out rem H Hret. unfold newc_write_header in H. cbv zeta in H.
+  destruct (negb (fst (newc_filesize e) =? 0)%Z) eqn:E.
+  - apply tuple3_inv in H. destruct H as [H1 _]. subst ret. st_contra Hret.
+  - apply tuple3_inv in H. destruct H as [H1 [Hout _]]. subst out.
+    apply negb_false_iff in E. apply Z.eqb_eq in E. repeat split; auto.
+    destruct (0 <? length (sym_of e)); repeat rewrite <- app_assoc; apply firstn_app_exact; apply newc_block_length.
+Qed.
+
 Theorem newc_ok_filesize : forall e ret out rem,
   newc_write_header e = (ret, out, rem) -> (ST_WARN <= ret)%Z ->
   cpio_atol16 (slice NEWC_c_filesize_offset NEWC_c_filesize_size (firstn 110 out))
   = if (0 <? length (sym_of e)) then lenZ (sym_of e) else body_size e.
 Proof.
-  intros e ret out rem H Hret. unfold newc_write_header in H. cbv zeta in H.
-  destruct (negb (fst (newc_filesize e) =? 0)%Z) eqn:E.
-  - apply tuple3_inv in H. destruct H as [H1 _]. subst ret. st_contra Hret.
-  - assert (Hout : firstn 110 out = newc_block e).
-    { apply tuple3_inv in H. destruct H as [_ [Hout _]]. subst out.
-      destruct (0 <? length (sym_of e)); repeat rewrite <- app_assoc; apply firstn_app_exact; apply newc_block_length. }
-    rewrite Hout. rewrite newc_slice_filesize.
-    apply negb_false_iff in E. apply Z.eqb_eq in E.
-    unfold newc_filesize in *. destruct (0 <? length (sym_of e)).
-    + apply newc_format_hex_ok in E. destruct E as [Hv Hb]. rewrite Hb.
-      apply hex_roundtrip_cpio; [assumption|]. change (zpow 16 NEWC_c_filesize_size) with 4294967296%Z in Hv. unfold two63. lia.
-    + apply newc_format_hex_ok in E. destruct E as [Hv Hb]. rewrite Hb.
-      apply hex_roundtrip_cpio; [assumption|]. change (zpow 16 NEWC_c_filesize_size) with 4294967296%Z in Hv. unfold two63. lia.
+  intros e ret out rem H Hret. destruct (newc_written _ _ _ _ H Hret) as [Hout [_ E]].
+  rewrite Hout. rewrite newc_slice_filesize.
+  unfold newc_filesize in *. destruct (0 <? length (sym_of e)).
+  + apply newc_format_hex_ok in E. destruct E as [Hv Hb]. rewrite Hb.
+    apply hex_roundtrip_cpio; [assumption|]. change (zpow 16 NEWC_c_filesize_size) with 4294967296%Z in Hv. unfold two63. lia.
+  + apply newc_format_hex_ok in E. destruct E as [Hv Hb]. rewrite Hb.
+    apply hex_roundtrip_cpio; [assumption|]. change (zpow 16 NEWC_c_filesize_size) with 4294967296%Z in Hv. unfold two63. lia.
 Qed.
 
-(* the only numeric overflow newc reports besides the file size: an inode number above 2^32-1 gives ARCHIVE_WARN *)
-Theorem newc_ok_ino : forall e out rem,
-  newc_write_header e = (ST_OK, out, rem) -> (0 <= e_ino e)%Z ->
-  cpio_atol16 (slice NEWC_c_ino_offset NEWC_c_ino_size (newc_block e)) = e_ino e.
+Lemma newc_field_ok_decodes : forall v w, (0 < w <= 15)%nat -> fst (newc_format_hex v w) = 0%Z ->
+  cpio_atol16 (snd (newc_format_hex v w)) = v.
 Proof.
-  intros e out rem H Hino. unfold newc_write_header in H. cbv zeta in H.
-  destruct (negb (fst (newc_filesize e) =? 0)%Z); [bad3 H|].
-  apply tuple3_inv in H. destruct H as [Hret _]. unfold pick in Hret.
-  destruct (4294967295 <? e_ino e)%Z eqn:E; [st_contra Hret|].
-  apply Z.ltb_ge in E. rewrite newc_slice_ino. rewrite newc_field_decodes by (unfold NEWC_c_ino_size; lia).
+  intros v w Hw H. apply newc_format_hex_ok in H. destruct H as [Hv Hb]. rewrite Hb.
+  assert (zpow 16 w <= zpow 16 15)%Z by (unfold zpow; apply Z.pow_le_mono_r; lia).
+  change (zpow 16 15) with 1152921504606846976%Z in H.
+  apply hex_roundtrip_cpio; unfold two63; lia.
+Qed.
+
+Section NewcOk.
+Variables (e : entry) (out : list Z) (rem : Z).
+Hypothesis Hw : newc_write_header e = (ST_OK, out, rem).
+
+Lemma newc_warn_ok :
+  firstn 110 out = newc_block e /\ (e_ino e <= 4294967295)%Z
+  /\ fst (newc_format_hex (e_uid e) NEWC_c_uid_size) = 0%Z /\ fst (newc_format_hex (e_gid e) NEWC_c_gid_size) = 0%Z
+  /\ fst (newc_format_hex (e_mtime e) NEWC_c_mtime_size) = 0%Z.
+Proof.
+  destruct (newc_written _ _ _ _ Hw ltac:(unfold ST_WARN, ST_OK, ARCHIVE_WARN, ARCHIVE_OK; lia)) as [Hout [H _]].
+  symmetry in H. unfold newc_warn in H.
+  apply pick_warn_ok in H. destruct H as [C4 H]. apply pick_warn_ok in H. destruct H as [C3 H].
+  apply pick_warn_ok in H. destruct H as [C2 H]. apply pick_warn_ok in H. destruct H as [C1 _].
+  repeat split; try assumption.
+  - apply Z.ltb_ge in C1. assumption.
+  - apply negb_eqb0c. assumption.
+  - apply negb_eqb0c. assumption.
+  - apply negb_eqb0c. assumption.
+Qed.
+
+Theorem newc_ok_uid : cpio_atol16 (slice NEWC_c_uid_offset NEWC_c_uid_size (firstn 110 out)) = e_uid e.
+Proof.
+  destruct newc_warn_ok as [Hb [_ [H _]]]. rewrite Hb. rewrite newc_slice_uid.
+  apply newc_field_ok_decodes; [unfold NEWC_c_uid_size; lia | assumption].
+Qed.
+Theorem newc_ok_gid : cpio_atol16 (slice NEWC_c_gid_offset NEWC_c_gid_size (firstn 110 out)) = e_gid e.
+Proof.
+  destruct newc_warn_ok as [Hb [_ [_ [H _]]]]. rewrite Hb. rewrite newc_slice_gid.
+  apply newc_field_ok_decodes; [unfold NEWC_c_gid_size; lia | assumption].
+Qed.
+Theorem newc_ok_mtime : cpio_atol16 (slice NEWC_c_mtime_offset NEWC_c_mtime_size (firstn 110 out)) = e_mtime e.
+Proof.
+  destruct newc_warn_ok as [Hb [_ [_ [_ H]]]]. rewrite Hb. rewrite newc_slice_mtime.
+  apply newc_field_ok_decodes; [unfold NEWC_c_mtime_size; lia | assumption].
+Qed.
+Theorem newc_ok_ino : (0 <= e_ino e)%Z ->
+  cpio_atol16 (slice NEWC_c_ino_offset NEWC_c_ino_size (firstn 110 out)) = e_ino e.
+Proof.
+  intros Hino. destruct newc_warn_ok as [Hb [E _]]. rewrite Hb.
+  rewrite newc_slice_ino. rewrite newc_field_decodes by (unfold NEWC_c_ino_size; lia).
   assert (Hl : Z.land (e_ino e) 4294967295 = e_ino e).
   { change 4294967295%Z with (Z.ones 32). rewrite Z.land_ones by lia. apply Z.mod_small. change (2 ^ 32)%Z with 4294967296%Z. lia. }
   rewrite Hl. change (zpow 16 NEWC_c_ino_size) with 4294967296%Z.
   replace ((0 <=? e_ino e) && (e_ino e <? 4294967296))%Z with true; [reflexivity|].
   symmetry. apply andb_true_iff. split; [apply Z.leb_le | apply Z.ltb_lt]; lia.
 Qed.
+End NewcOk.
 
 (* ------------------------------------------------------------------ binary *)
 Lemma bin_block_length : forall ino e, length (bin_block ino e) = 26.
@@ -298,26 +442,86 @@ Lemma bin_slice_filesize : le4 (slice R_bin_filesize_offset R_bin_filesize_size 
 Proof. unfold bin_block. cbv zeta. destruct (is_dev e); cbn [app slice skipn firstn bin16 bin32 R_bin_filesize_offset R_bin_filesize_size]; apply bin32_roundtrip. Qed.
 End BinBlock.
 
-(* status OK of the binary writer means the file size is exact (it is the only range the writer checks) *)
+(* what a written binary header looks like *)
+Lemma bin_written : forall pwb st e st' ret out rem,
+  bin_write_header pwb st e = (st', ret, out, rem) -> (ST_WARN <= ret)%Z ->
+  exists ino, firstn 26 out = bin_block ino e /\ ret = bin_warn e /\ (lenZ (ob (e_path e)) + 1 <= 65535)%Z
+              /\ (length (sym_of e) = 0 -> (body_size e <= 2147483647)%Z).
+Proof.
+  intros pwb st e st' ret out rem H Hret. unfold bin_write_header in H. cbv zeta in H.
+  destruct (65535 <? lenZ (ob (e_path e)) + 1)%Z eqn:El; [apply tuple4_inv in H; destruct H as [_ [H2 _]]; subst ret; st_contra Hret|].
+  apply Z.ltb_ge in El.
+  destruct (synthesize_ino st e) as [st1 ino].
+  destruct (ino <? 0)%Z; [apply tuple4_inv in H; destruct H as [_ [H2 _]]; subst ret; st_contra Hret|].
+  destruct (32767 <? ino)%Z; [apply tuple4_inv in H; destruct H as [_ [H2 _]]; subst ret; st_contra Hret|].
+  destruct ((Z.land (u16 (e_mode e)) IFMT =? IFSOCK)%Z || (Z.land (u16 (e_mode e)) IFMT =? IFIFO)%Z);
+    [apply tuple4_inv in H; destruct H as [_ [H2 _]]; subst ret; st_contra Hret|].
+  destruct (pwb && (Z.land (u16 (e_mode e)) IFMT =? IFLNK)%Z); [apply tuple4_inv in H; destruct H as [_ [H2 _]]; subst ret; st_contra Hret|].
+  destruct ((0 <? length (sym_of e)) && pwb); [apply tuple4_inv in H; destruct H as [_ [H2 _]]; subst ret; st_contra Hret|].
+  destruct (negb (0 <? length (sym_of e)) && pwb && (16777215 <? body_size e)%Z);
+    [apply tuple4_inv in H; destruct H as [_ [H2 _]]; subst ret; st_contra Hret|].
+  destruct (negb (0 <? length (sym_of e)) && (2147483647 <? body_size e)%Z) eqn:E;
+    [apply tuple4_inv in H; destruct H as [_ [H2 _]]; subst ret; st_contra Hret|].
+  apply tuple4_inv in H. destruct H as [_ [H2 [Hout _]]]. subst out.
+  exists ino. repeat split; auto.
+  - destruct (0 <? length (sym_of e)); repeat rewrite <- app_assoc; apply firstn_app_exact; apply bin_block_length.
+  - intros Hs. rewrite Hs in E. cbn [Nat.ltb Nat.leb negb andb] in E. apply Z.ltb_ge in E. assumption.
+Qed.
+
+Section BinOk.
+Variables (pwb : bool) (st st' : cpio_state) (e : entry) (out : list Z) (rem : Z).
+Hypothesis Hw : bin_write_header pwb st e = (st', ST_OK, out, rem).
+
+Lemma bin_warn_ok : exists ino, firstn 26 out = bin_block ino e
+  /\ (e_uid e <= 65535 /\ e_gid e <= 65535 /\ e_nlink e <= 65535 /\ (is_dev e = true -> u64 (e_rdev e) <= 65535)
+      /\ 0 <= e_mtime e <= 4294967295 /\ lenZ (ob (e_path e)) + 1 <= 65535)%Z.
+Proof.
+  destruct (bin_written _ _ _ _ _ _ _ Hw ltac:(unfold ST_WARN, ST_OK, ARCHIVE_WARN, ARCHIVE_OK; lia)) as [ino [Hout [H [Hl _]]]].
+  exists ino. split; [assumption|]. symmetry in H. unfold bin_warn in H.
+  apply pick_warn_ok in H. destruct H as [C5 H]. apply pick_warn_ok in H. destruct H as [C4 H].
+  apply pick_warn_ok in H. destruct H as [C3 H]. apply pick_warn_ok in H. destruct H as [C2 H].
+  apply pick_warn_ok in H. destruct H as [C1 _].
+  apply Z.ltb_ge in C1. apply Z.ltb_ge in C2. apply Z.ltb_ge in C3.
+  apply orb_false_iff in C5. destruct C5 as [C5a C5b]. apply Z.ltb_ge in C5a. apply Z.ltb_ge in C5b.
+  repeat split; try assumption.
+  intros Hd. rewrite Hd in C4. cbn [andb] in C4. apply Z.ltb_ge in C4. assumption.
+Qed.
+
+Theorem bin_ok_uid : (0 <= e_uid e)%Z -> le2 (slice R_bin_uid_offset R_bin_uid_size (firstn 26 out)) = e_uid e.
+Proof.
+  intros H0. destruct bin_warn_ok as [ino [Hb [H _]]]. rewrite Hb. rewrite bin_slice_uid. apply Z.mod_small. lia.
+Qed.
+Theorem bin_ok_gid : (0 <= e_gid e)%Z -> le2 (slice R_bin_gid_offset R_bin_gid_size (firstn 26 out)) = e_gid e.
+Proof.
+  intros H0. destruct bin_warn_ok as [ino [Hb [_ [H _]]]]. rewrite Hb. rewrite bin_slice_gid. apply Z.mod_small. lia.
+Qed.
+Theorem bin_ok_nlink : (0 <= e_nlink e)%Z -> le2 (slice R_bin_nlink_offset R_bin_nlink_size (firstn 26 out)) = e_nlink e.
+Proof.
+  intros H0. destruct bin_warn_ok as [ino [Hb [_ [_ [H _]]]]]. rewrite Hb. rewrite bin_slice_nlink. apply Z.mod_small. lia.
+Qed.
+Theorem bin_ok_mtime : le4 (slice R_bin_mtime_offset R_bin_mtime_size (firstn 26 out)) = e_mtime e.
+Proof.
+  destruct bin_warn_ok as [ino [Hb [_ [_ [_ [_ [H _]]]]]]]. rewrite Hb. rewrite bin_slice_mtime. apply Z.mod_small. lia.
+Qed.
+Theorem bin_ok_namesize : le2 (slice R_bin_namesize_offset R_bin_namesize_size (firstn 26 out)) = (lenZ (ob (e_path e)) + 1)%Z.
+Proof.
+  destruct bin_warn_ok as [ino [Hb [_ [_ [_ [_ [_ H]]]]]]]. rewrite Hb. rewrite bin_slice_namesize.
+  unfold pathlength_of, s32, lenZ in *. rewrite (Z.mod_small (Z.of_nat (length (ob (e_path e))) + 2147483648)) by lia.
+  rewrite Z.mod_small by lia. lia.
+Qed.
+End BinOk.
+
+(* status OK of the binary writer means the file size is exact *)
 Theorem bin_ok_filesize : forall pwb st e st' out rem,
   bin_write_header pwb st e = (st', ST_OK, out, rem) -> (0 <= body_size e)%Z -> (lenZ (sym_of e) < 4294967296)%Z ->
   exists ino, firstn 26 out = bin_block ino e /\
   le4 (slice R_bin_filesize_offset R_bin_filesize_size (bin_block ino e))
   = if (0 <? length (sym_of e)) then lenZ (sym_of e) else body_size e.
 Proof.
-  intros pwb st e st' out rem H Hb Hs. unfold bin_write_header in H. cbv zeta in H.
-  destruct (synthesize_ino st e) as [st1 ino].
-  destruct (ino <? 0)%Z; [bad4 H|].
-  destruct (32767 <? ino)%Z; [bad4 H|].
-  destruct ((Z.land (u16 (e_mode e)) IFMT =? IFSOCK)%Z || (Z.land (u16 (e_mode e)) IFMT =? IFIFO)%Z); [bad4 H|].
-  destruct (pwb && (Z.land (u16 (e_mode e)) IFMT =? IFLNK)%Z); [bad4 H|].
-  destruct ((0 <? length (sym_of e)) && pwb); [bad4 H|].
-  destruct (negb (0 <? length (sym_of e)) && pwb && (16777215 <? body_size e)%Z); [bad4 H|].
-  destruct (negb (0 <? length (sym_of e)) && (2147483647 <? body_size e)%Z) eqn:E; [bad4 H|].
-  exists ino. split.
-  - apply tuple4_inv in H. destruct H as [_ [_ [Hout _]]]. subst out.
-    destruct (0 <? length (sym_of e)); repeat rewrite <- app_assoc; apply firstn_app_exact; apply bin_block_length.
-  - rewrite bin_slice_filesize. destruct (0 <? length (sym_of e)) eqn:El.
-    + apply Z.mod_small. unfold lenZ in *. lia.
-    + cbn [negb andb] in E. apply Z.ltb_ge in E. apply Z.mod_small. lia.
+  intros pwb st e st' out rem H Hb Hs.
+  destruct (bin_written _ _ _ _ _ _ _ H ltac:(unfold ST_WARN, ST_OK, ARCHIVE_WARN, ARCHIVE_OK; lia)) as [ino [Hout [_ [_ Hsz]]]].
+  exists ino. split; [assumption|].
+  rewrite bin_slice_filesize. destruct (0 <? length (sym_of e)) eqn:El.
+  - apply Z.mod_small. unfold lenZ in *. lia.
+  - apply Nat.ltb_ge in El. assert (length (sym_of e) = 0) by lia. specialize (Hsz H0). apply Z.mod_small. lia.
 Qed.
